@@ -1,16 +1,16 @@
 SPECIFICATION Spec
 CONSTANTS
-  Sims = {"bd", "fast"}
+  Sims = {"cc"}
   MaxN = 3
   MaxDt = 2
-  MaxDec = 5
+  MaxDec = 9
   MaxG = 2
-  MaxSp = 2
+  MaxSp = 3
   RootDt = 1
   StopGT = FALSE
   AsShipped = FALSE
   HistMaxGenes = 4
-  StaleArgs = FALSE
-  Leak = TRUE
+  StaleArgs = TRUE
+  Leak = FALSE
 INVARIANT Determinism
 CHECK_DEADLOCK FALSE
